@@ -33,25 +33,6 @@ func c05S32(u int) int {
 	return u
 }
 
-// DATE: days since 1900-01-01 as int32
-// not registered: z3 answers unknown within 60 s for the mixed 64-bit wrap-around /
-// calendar arithmetic of this harness (see DESIGN.md, C04/C05 temporal types)
-func UndecidedC05_Date() {
-	vfLoopBound(200)
-	raw := vfBytes("raw", 4)
-	x := c05S32(c05U(raw))
-	vfAssume(x >= c05MinDay1900 && x <= c05MaxDay1900)
-	t := []DataType{DATE, DATEN}[vfPick("type", 0, 1)]
-	val, err := t.GoValue(le, raw)
-	vfAssert(err == nil, "decoding succeeds")
-	tm := val.(time.Time)
-	vfAssert(tm.Unix() == int64((x-c05Days1900to1970)*86400), "C05: DATE is days since 1900-01-01")
-	bs, err := t.Bytes(le, tm, 4)
-	vfAssert(err == nil, "encoding succeeds")
-	c04SameBytes(bs, raw, "C04 date")
-	vfReach("end")
-}
-
 // DATE ignores the time of day also before 1900
 func HarnessC04_DateWithTimeOfDay() {
 	vfLoopBound(200)
@@ -66,114 +47,313 @@ func HarnessC04_DateWithTimeOfDay() {
 	vfReach("end")
 }
 
-// TIME: 1/300 s ticks since midnight
-// not registered: z3 answers unknown within 60 s for the mixed 64-bit wrap-around /
-// calendar arithmetic of this harness (see DESIGN.md, C04/C05 temporal types)
-func UndecidedC05_Time() {
+// ---- temporal types, decided per direction against the reference layout ----
+// The composed round trip (decode after encode) is beyond the solver; each
+// direction against the reference layout is not, and the reference layout is a
+// bijection between (day, time-of-day) and byte strings, so the two directions
+// together give the round trip of C04 on the clock/calendar fields.
+
+// little-endian value, accumulated from the low end (the engine recombines
+// the bytes of one integer written by PutUintNN into that integer)
+func c05ULow(raw []byte) int {
+	v, mul := 0, 1
+	for i := 0; i < len(raw); i++ {
+		v += int(raw[i]) * mul
+		mul *= 256
+	}
+	return v
+}
+
+// the n low bytes of v, little-endian (two's complement for negative v)
+func c05LE(v, n int) []byte {
+	bs := make([]byte, n)
+	for i := 0; i < n; i++ {
+		bs[i] = byte(v >> (8 * uint(i)))
+	}
+	return bs
+}
+
+func c05Clock(tm time.Time) int {
+	return tm.Hour()*3600000000000 + tm.Minute()*60000000000 + tm.Second()*1000000000 + tm.Nanosecond()
+}
+
+// BIGTIMEN, server -> client: microseconds since midnight
+func HarnessC05_BigTimeDecode() {
+	vfLoopBound(200)
+	raw := vfBytes("raw", 8)
+	// microseconds of a day need 37 bits: the upper three bytes are zero
+	vfAssume(raw[5] == 0 && raw[6] == 0 && raw[7] == 0)
+	us := c05U(raw[:5])
+	vfAssume(us <= 86399999999)
+	val, err := BIGTIMEN.GoValue(le, raw)
+	vfAssert(err == nil, "decoding succeeds")
+	tm := val.(time.Time)
+	vfAssert(c05Clock(tm) == us*1000, "C05: bigtime is microseconds since midnight")
+	vfReach("end")
+}
+
+// BIGTIMEN, client -> server
+func HarnessC05_BigTimeEncode() {
+	vfLoopBound(200)
+	h, m, s, us := vfInt("h", 0, 23), vfInt("m", 0, 59), vfInt("s", 0, 59), vfInt("us", 0, 999999)
+	sub := vfInt("subus", 0, 999) // nanoseconds below the microsecond are dropped
+	tm := time.Date(2000, 1, 1, h, m, s, us*1000+sub, time.UTC)
+	bs, err := BIGTIMEN.Bytes(le, tm, 8)
+	vfAssert(err == nil, "encoding succeeds")
+	want := ((h*60+m)*60+s)*1000000 + us
+	vfAssert(len(bs) == 8, "eight bytes")
+	vfAssert(c05ULow(bs[:7]) == want, "C05: bigtime is microseconds since midnight")
+	vfAssert(bs[7] == 0, "C05: bigtime top byte")
+	vfReach("end")
+}
+
+// reference calendar (independent of the library and of package time): days from
+// 1970-01-01 of a proleptic Gregorian date, after Hinnant's days_from_civil
+func c05DaysFromCivil(y, m, d int) int {
+	if m <= 2 {
+		y--
+	}
+	era := y / 400 // y >= 0 for years >= 1
+	yoe := y - era*400
+	mp := (m + 9) % 12
+	doy := (153*mp+2)/5 + d - 1
+	doe := yoe*365 + yoe/4 - yoe/100 + doy
+	return era*146097 + doe - 719468
+}
+
+func c05Leap(y int) bool { return y%4 == 0 && (y%100 != 0 || y%400 == 0) }
+
+func c05DaysIn(y, m int) int {
+	switch m {
+	case 2:
+		if c05Leap(y) {
+			return 29
+		}
+		return 28
+	case 4, 6, 9, 11:
+		return 30
+	}
+	return 31
+}
+
+// centuries explored: all in thorough, a spread incl. the epochs in quick
+func c05Century() int {
+	if vfThorough() {
+		return vfPick("century", 0, 99)
+	}
+	return []int{0, 3, 15, 17, 18, 19, 20, 99}[vfPick("centuryidx", 0, 7)]
+}
+
+// an arbitrary valid date of years 1..9999: century and month are case-split,
+// year-of-century and day are symbolic
+func c05Date() (y, m, d int) {
+	y = c05Century()*100 + vfInt("yy", 0, 99)
+	vfAssume(y >= 1)
+	m = vfPick("month", 1, 12)
+	d = vfInt("day", 1, 31)
+	vfAssume(d <= c05DaysIn(y, m))
+	return
+}
+
+// DATE, client -> server: days since 1900-01-01, whatever the time of day
+func HarnessC05_DateEncode() {
+	vfLoopBound(200)
+	y, m, d := c05Date()
+	secs := vfInt("secs", 0, 86399)
+	tm := time.Date(y, time.Month(m), d, 0, 0, secs, vfInt("ns", 0, 999999999), time.UTC)
+	t := []DataType{DATE, DATEN}[vfPick("type", 0, 1)]
+	bs, err := t.Bytes(le, tm, 4)
+	vfAssert(err == nil, "encoding succeeds")
+	vfAssert(len(bs) == 4, "four bytes")
+	vfAssert(c05S32(c05ULow(bs)) == c05DaysFromCivil(y, m, d)+c05Days1900to1970, "C05: DATE is days since 1900-01-01")
+	vfReach("end")
+}
+
+// DATE, server -> client
+func HarnessC05_DateDecode() {
 	vfLoopBound(200)
 	raw := vfBytes("raw", 4)
-	ticks := c05U(raw)
+	x := c05S32(c05ULow(raw))
+	vfAssume(x >= c05MinDay1900 && x <= c05MaxDay1900)
+	t := []DataType{DATE, DATEN}[vfPick("type", 0, 1)]
+	val, err := t.GoValue(le, raw)
+	vfAssert(err == nil, "decoding succeeds")
+	tm := val.(time.Time)
+	vfAssert(tm.Unix() == int64((x-c05Days1900to1970)*86400), "C05: DATE is days since 1900-01-01")
+	vfReach("end")
+}
+
+// TIME / TIMEN, server -> client: 1/300 s ticks since midnight; the decoded time
+// lies within one tick below the tick's instant
+func HarnessC05_TimeDecode() {
+	vfLoopBound(200)
+	raw := vfBytes("raw", 4)
+	ticks := c05ULow(raw)
 	vfAssume(ticks <= 25919999)
 	t := []DataType{TIME, TIMEN}[vfPick("type", 0, 1)]
 	val, err := t.GoValue(le, raw)
 	vfAssert(err == nil, "decoding succeeds")
-	tm := val.(time.Time)
-	// the tick count is preserved by decode + encode, and the decoded time is within one tick
-	ns := tm.Hour()*3600000000000 + tm.Minute()*60000000000 + tm.Second()*1000000000 + tm.Nanosecond()
-	vfAssert(ns*3 <= ticks*10000000 && ticks*10000000 < ns*3+10000000+3000000, "C05: decoded time within a tick of ticks/300 s")
-	bs, err := t.Bytes(le, tm, 4)
-	vfAssert(err == nil, "encoding succeeds")
-	c04SameBytes(bs, raw, "C04 time: ticks survive")
+	ns := c05Clock(val.(time.Time))
+	vfAssert(ns*3 <= ticks*10000000 && ticks*10000000 < ns*3+10000000, "C05: decoded time within a tick of ticks/300 s")
 	vfReach("end")
 }
 
-// SHORTDATE (smalldatetime): uint16 days since 1900-01-01, uint16 minutes
-// not registered: z3 answers unknown within 60 s for the mixed 64-bit wrap-around /
-// calendar arithmetic of this harness (see DESIGN.md, C04/C05 temporal types)
-func UndecidedC05_ShortDate() {
+// TIME / TIMEN, client -> server: the nearest tick (times in the last half tick
+// of the day would round up to 24:00:00 and are outside)
+func HarnessC05_TimeEncode() {
+	vfLoopBound(200)
+	h, m, s, us := vfInt("h", 0, 23), vfInt("m", 0, 59), vfInt("s", 0, 59), vfInt("us", 0, 999999)
+	tm := time.Date(2000, 1, 1, h, m, s, us*1000+vfInt("subus", 0, 999), time.UTC)
+	day := ((h*60+m)*60+s)*1000000 + us
+	vfAssume(day*3+5000 < 25920000*10000)
+	t := []DataType{TIME, TIMEN}[vfPick("type", 0, 1)]
+	bs, err := t.Bytes(le, tm, 4)
+	vfAssert(err == nil, "encoding succeeds")
+	vfAssert(len(bs) == 4, "four bytes")
+	ticks := c05ULow(bs)
+	vfAssert(ticks*10000-day*3 <= 5000 && day*3-ticks*10000 <= 5000, "C05: TIME is the nearest 1/300 s tick")
+	vfReach("end")
+}
+
+// SHORTDATE (smalldatetime), server -> client: uint16 days since 1900-01-01, uint16 minutes
+func HarnessC05_ShortDateDecode() {
 	vfLoopBound(200)
 	raw := vfBytes("raw", 4)
-	days, mins := c05U(raw[:2]), c05U(raw[2:])
+	days, mins := c05ULow(raw[:2]), c05ULow(raw[2:])
 	vfAssume(mins <= 1439)
 	val, err := SHORTDATE.GoValue(le, raw)
 	vfAssert(err == nil, "decoding succeeds")
 	tm := val.(time.Time)
 	vfAssert(tm.Unix() == int64((days-c05Days1900to1970)*86400+mins*60), "C05: smalldatetime is days and minutes since 1900-01-01")
-	bs, err := SHORTDATE.Bytes(le, tm, 4)
-	vfAssert(err == nil, "encoding succeeds")
-	c04SameBytes(bs, raw, "C04 smalldatetime")
+	vfAssert(tm.Nanosecond() == 0, "C05: smalldatetime has no fraction")
 	vfReach("end")
 }
 
-// DATETIME: int32 days since 1900-01-01, uint32 ticks of 1/300 s
-// not registered: z3 answers unknown within 60 s for the mixed 64-bit wrap-around /
-// calendar arithmetic of this harness (see DESIGN.md, C04/C05 temporal types)
-func UndecidedC05_DateTime() {
+// SHORTDATE, client -> server (1900-01-01 .. 2079-06-06 is what uint16 days hold)
+func HarnessC05_ShortDateEncode() {
 	vfLoopBound(200)
-	raw := vfBytes("raw", 8)
-	days, ticks := c05S32(c05U(raw[:4])), c05U(raw[4:])
-	vfAssume(days >= -53690 && days <= c05MaxDay1900 && ticks <= 25919999) // 1753-01-01 .. 9999-12-31
+	y := 1900 + vfInt("yy", 0, 178)
+	m := vfPick("month", 1, 12)
+	d := vfInt("day", 1, 31)
+	vfAssume(d <= c05DaysIn(y, m))
+	h, mi, s := vfInt("h", 0, 23), vfInt("m", 0, 59), vfInt("s", 0, 59)
+	tm := time.Date(y, time.Month(m), d, h, mi, s, vfInt("ns", 0, 999999999), time.UTC)
+	bs, err := SHORTDATE.Bytes(le, tm, 4)
+	vfAssert(err == nil, "encoding succeeds")
+	vfAssert(len(bs) == 4, "four bytes")
+	vfAssert(c05ULow(bs[:2]) == c05DaysFromCivil(y, m, d)+c05Days1900to1970, "C05: smalldatetime days since 1900-01-01")
+	vfAssert(c05ULow(bs[2:]) == h*60+mi, "C05: smalldatetime minutes since midnight")
+	vfReach("end")
+}
+
+// DATETIME / DATETIMEN, server -> client: int32 days since 1900-01-01, uint32 ticks
+func HarnessC05_DateTimeDecode() {
+	vfLoopBound(200)
+	// 1753-01-01 .. 9999-12-31; the sign of the day offset is case-split
+	var days int
+	if vfPick("before1900", 0, 1) == 1 {
+		days = vfInt("daysneg", -53690, -1)
+	} else {
+		days = vfInt("days", 0, c05MaxDay1900)
+	}
+	ticks := vfInt("ticks", 0, 25919999)
+	raw := append(c05LE(days, 4), c05LE(ticks, 4)...)
 	t := []DataType{DATETIME, DATETIMEN}[vfPick("type", 0, 1)]
 	val, err := t.GoValue(le, raw)
 	vfAssert(err == nil, "decoding succeeds")
 	tm := val.(time.Time)
-	u := tm.Unix()
-	vfAssert(u >= int64(days-c05Days1900to1970)*86400 && u < int64(days-c05Days1900to1970+1)*86400, "C05: the decoded time lies on day `days` since 1900-01-01")
-	bs, err := t.Bytes(le, tm, 8)
-	vfAssert(err == nil, "encoding succeeds")
-	c04SameBytes(bs, raw, "C04 datetime: days and ticks survive")
+	secs := int(tm.Unix()) - (days-c05Days1900to1970)*86400
+	vfAssert(secs >= 0, "C05: the decoded time lies on day `days` since 1900-01-01 (lower)")
+	vfAssert(secs < 86400, "C05: the decoded time lies on day `days` since 1900-01-01 (upper)")
+	ms := secs*1000 + tm.Nanosecond()/1000000
+	vfAssert(tm.Nanosecond()%1000000 == 0, "decoded datetime has millisecond granularity")
+	vfAssert(ms*3 <= ticks*10, "C05: datetime time of day is ticks/300 s (not after the tick)")
+	vfAssert(ticks*10 < ms*3+10, "C05: datetime time of day is ticks/300 s (within a tick)")
 	vfReach("end")
 }
 
-// BIGDATETIMEN: microseconds since 0000-01-01; BIGTIMEN: microseconds since midnight
-// not registered: z3 answers unknown within 60 s for the mixed 64-bit wrap-around /
-// calendar arithmetic of this harness (see DESIGN.md, C04/C05 temporal types)
-func UndecidedC05_BigDateTime() {
+// DATETIME / DATETIMEN, client -> server
+func HarnessC05_DateTimeEncode() {
 	vfLoopBound(200)
-	raw := vfBytes("raw", 8)
-	v := c05U(raw)
-	day, us := v/86400000000, v%86400000000
-	vfAssume(v < 1<<62 && day >= 366 && day <= 3652424) // 0001-01-01 .. 9999-12-31 counted from 0000-01-01
+	y, m, d := c05Date()
+	vfAssume(y >= 1753)
+	h, mi, s, us := vfInt("h", 0, 23), vfInt("m", 0, 59), vfInt("s", 0, 59), vfInt("us", 0, 999999)
+	tm := time.Date(y, time.Month(m), d, h, mi, s, us*1000+vfInt("subus", 0, 999), time.UTC)
+	day := ((h*60+mi)*60+s)*1000000 + us
+	vfAssume(day*3+5000 < 25920000*10000)
+	t := []DataType{DATETIME, DATETIMEN}[vfPick("type", 0, 1)]
+	bs, err := t.Bytes(le, tm, 8)
+	vfAssert(err == nil, "encoding succeeds")
+	vfAssert(len(bs) == 8, "eight bytes")
+	vfAssert(c05S32(c05ULow(bs[:4])) == c05DaysFromCivil(y, m, d)+c05Days1900to1970, "C05: datetime days since 1900-01-01")
+	ticks := c05ULow(bs[4:])
+	vfAssert(ticks*10000-day*3 <= 5000 && day*3-ticks*10000 <= 5000, "C05: datetime time of day is the nearest 1/300 s tick")
+	vfReach("end")
+}
+
+// BIGDATETIMEN, server -> client: microseconds since 0000-01-01
+func HarnessC05_BigDateTimeDecode() {
+	vfLoopBound(200)
+	day := vfInt("day", 366, 3652424) // 0001-01-01 .. 9999-12-31 counted from 0000-01-01
+	us := vfInt("us", 0, 86399999999)
+	raw := c05LE(day*86400000000+us, 8)
 	val, err := BIGDATETIMEN.GoValue(le, raw)
 	vfAssert(err == nil, "decoding succeeds")
 	tm := val.(time.Time)
-	vfAssert(tm.Unix() == int64(day-366-c05Days0001to1970)*86400+int64(us/1000000), "C05: bigdatetime is microseconds since 0000-01-01")
-	vfAssert(tm.Nanosecond() == (us%1000000)*1000, "C05: microsecond part")
+	vfAssert(tm.Unix() == int64((day-366-c05Days0001to1970)*86400+us/1000000), "C05: bigdatetime is microseconds since 0000-01-01")
+	vfAssert(tm.Nanosecond() == (us%1000000)*1000, "C05: bigdatetime microsecond part")
+	vfReach("end")
+}
+
+// BIGDATETIMEN, client -> server
+func HarnessC05_BigDateTimeEncode() {
+	vfLoopBound(200)
+	y, m, d := c05Date()
+	h, mi, s, us := vfInt("h", 0, 23), vfInt("m", 0, 59), vfInt("s", 0, 59), vfInt("us", 0, 999999)
+	tm := time.Date(y, time.Month(m), d, h, mi, s, us*1000+vfInt("subus", 0, 999), time.UTC)
 	bs, err := BIGDATETIMEN.Bytes(le, tm, 8)
 	vfAssert(err == nil, "encoding succeeds")
-	c04SameBytes(bs, raw, "C04 bigdatetime")
+	vfAssert(len(bs) == 8, "eight bytes")
+	want := (c05DaysFromCivil(y, m, d)+c05Days0001to1970+366)*86400000000 + ((h*60+mi)*60+s)*1000000 + us
+	vfAssert(c05ULow(bs) == want, "C05: bigdatetime is microseconds since 0000-01-01")
 	vfReach("end")
 }
 
-// not registered: z3 answers unknown within 60 s for the mixed 64-bit wrap-around /
-// calendar arithmetic of this harness (see DESIGN.md, C04/C05 temporal types)
-func UndecidedC05_BigTime() {
+// calendar helper TimeToMicroseconds agrees with the reference calendar
+// not registered: the helper computes in uint64 (64-bit bit-vector multiplication by
+// 86400000000), which z3 does not decide within the time limit
+func UndecidedC05_TimeToMicroseconds() {
 	vfLoopBound(200)
-	raw := vfBytes("raw", 8)
-	us := c05U(raw)
-	vfAssume(us <= 86399999999)
-	val, err := BIGTIMEN.GoValue(le, raw)
-	vfAssert(err == nil, "decoding succeeds")
-	tm := val.(time.Time)
-	ns := tm.Hour()*3600000000000 + tm.Minute()*60000000000 + tm.Second()*1000000000 + tm.Nanosecond()
-	vfAssert(ns == us*1000, "C05: bigtime is microseconds since midnight")
-	bs, err := BIGTIMEN.Bytes(le, tm, 8)
-	vfAssert(err == nil, "encoding succeeds")
-	c04SameBytes(bs, raw, "C04 bigtime")
+	y, m, d := c05Date()
+	h, mi, s, us := vfInt("h", 0, 23), vfInt("m", 0, 59), vfInt("s", 0, 59), vfInt("us", 0, 999999)
+	tm := time.Date(y, time.Month(m), d, h, mi, s, us*1000, time.UTC)
+	want := (c05DaysFromCivil(y, m, d)+c05Days0001to1970+366)*86400000000 + ((h*60+mi)*60+s)*1000000 + us
+	vfAssert(asetime.TimeToMicroseconds(tm) == uint64(want), "C05: TimeToMicroseconds agrees with the proleptic Gregorian calendar")
 	vfReach("end")
 }
 
-// calendar helpers: TimeToMicroseconds / MicrosecondsToTime are inverse and agree with
-// the proleptic Gregorian calendar (day number from 0000-01-01)
-// not registered: z3 answers unknown within 60 s for the mixed 64-bit wrap-around /
-// calendar arithmetic of this harness (see DESIGN.md, C04/C05 temporal types)
-func UndecidedC05_CalendarHelpers() {
+// calendar helper MicrosecondsToTime agrees with the reference calendar; the day
+// number is case-split by year (window of one year)
+// not registered: uint64 division/remainder by constants plus the Fliegel/Van Flandern
+// inversion are not decided within the time limit
+func UndecidedC05_MicrosecondsToTime() {
 	vfLoopBound(200)
-	day := vfInt("day", 366, 3652424)
+	yys := []int{0, 1, 4, 50, 96, 99}
+	if vfThorough() {
+		yys = []int{0, 1, 2, 3, 4, 25, 50, 75, 96, 97, 98, 99}
+	}
+	y := c05Century()*100 + yys[vfPick("yyidx", 0, len(yys)-1)]
+	vfAssume(y >= 1)
+	first := c05DaysFromCivil(y, 1, 1) + c05Days0001to1970 + 366
+	n := 365
+	if c05Leap(y) {
+		n = 366
+	}
+	day := first + vfInt("dayofyear", 0, 365)
+	vfAssume(day < first+n)
 	us := vfInt("us", 0, 86399999999)
-	v := uint64(day)*86400000000 + uint64(us)
-	tm := asetime.MicrosecondsToTime(v)
-	vfAssert(tm.Unix() == int64(day-366-c05Days0001to1970)*86400+int64(us/1000000), "C05: MicrosecondsToTime agrees with the proleptic Gregorian calendar")
-	vfAssert(asetime.TimeToMicroseconds(tm) == v, "C05: TimeToMicroseconds inverts MicrosecondsToTime")
+	tm := asetime.MicrosecondsToTime(uint64(day*86400000000 + us))
+	vfAssert(tm.Unix() == int64((day-366-c05Days0001to1970)*86400+us/1000000), "C05: MicrosecondsToTime agrees with the proleptic Gregorian calendar")
+	vfAssert(tm.Nanosecond() == (us%1000000)*1000, "C05: MicrosecondsToTime microsecond part")
 	vfReach("end")
 }
